@@ -16,3 +16,8 @@ Definition mv_pinned := move_prealloc hsq false.
 Definition mv_fixed := move_prealloc hsq true.
 Definition hash_full (p : position) : N := hash_of p.
 Definition scratch (p : position) : N := scratch_hash gen_basis p.
+
+(* TPS codec with the regenerated basis (FromSquares computes the from-scratch hash) *)
+Require Import Tps.
+Definition tps_parse := Tps.parse_tps gen_basis.
+Definition tps_format := Tps.format_tps.
